@@ -444,6 +444,7 @@ class DerivRun:
         self.D = symmat_sym("D" + sfx, 3)
         self.W = symarr("W" + sfx, (3, 3))
         self.p, self.nn, self.lam, self.M, self.phi = (sym(k + sfx) for k in ("p", "n_", "lam", "M", "phi"))
+        self.snap = [np.array(a, dtype=object).copy() for a in (self.L, self.D, self.W)]  # for the frame condition
         me = self
 
         def stub_grain(phase, fabric, orientation, D, L, p, nn, lam):
